@@ -156,7 +156,8 @@ def strips_comments(prog: Prog, fn: Fn, call: ast.AST, _depth: int = 0) -> bool:
         return False
     for cal in prog.resolve_call(call, fn):
         if isinstance(cal, Fn):
-            for r in prog.walk_fn(cal):
-                if isinstance(r, ast.Return) and r.value is not None and any(strips_comments(prog, cal, v, _depth + 1) for v in prog.value_sources(cal, r.value)):
-                    return True
+            rets = [r for r in prog.walk_fn(cal) if isinstance(r, ast.Return) and r.value is not None]
+            # every way out of the function goes through the stripper (a fast path that hands the text back untouched strips nothing)
+            if rets and all(all(strips_comments(prog, cal, v, _depth + 1) for v in prog.value_sources(cal, r.value)) for r in rets):
+                return True
     return False
